@@ -98,6 +98,10 @@ def run(prog: Program, rep: Report, tier: str) -> None:
     from . import c14
 
     c14.step_attribute_freshness(prog, rep, "R15.2", roles=("tracker",))
+    rep.rule("R15.3", "the depth a particle is reflected at is the depth sampled for that particle (same particle list; shared with C14 R14.7)", 1)
+    from . import align
+
+    align.report(prog, rep, "R15.3", "Z, w and h of one particle are paired")
     # both off: Z untouched
     for adv in (True, False):
         it, fr, dom, facts, log, z0, fi = vertical_eval(prog, False, False, advection=adv)
